@@ -20,6 +20,16 @@ import AsynqModel.Lib.Cache
   The values of keywords collected by `**opts` are plain tokens.
   Everything else (LRUCache, the wrappers, the observers) is the model of Lib/Cache.lean, which is parametric in the
   key function `mk`, the reference key `rk` and the binding `bd`.
+
+  POSITIONAL-ONLY parameters (`def g(a, b=0, /, c=0, *rest, k=0, **opts)`, PEP 570): `po` = how many of the named positional
+  parameters `pos` are positional-only (`original_fn.__code__.co_posonlyargcount`, minus `self` for a method).  The KEY as
+  written does not know them (`inspect.getfullargspec` lists them in `args`; `openKey` has no `po`), Python's BINDING does
+  (`openNorm`): a keyword that has the name of a positional-only parameter binds nothing and is collected by `**opts`.
+  This is where the property is FALSE of the code as it is: `g(1, a=2)`, `g(1, a=3)` and `g(1)` are three valid calls of
+  `def g(a, /, **opts)` with three different normalised arguments and ONE key (get_args_tuple drops a leftover keyword whose
+  name is in arg_names), and `h(1, b=5)` has the key of `h(1, 5)` for `def h(a, b=0, /, **opts)` (the keyword is taken for the
+  parameter) - `C13_open_posonly_counterexample`.  `poClean`: no keyword of the call is named like a positional-only
+  parameter; the theorems about the key carry it as a hypothesis.
 -/
 namespace AsynqModel.Cache
 
@@ -63,13 +73,33 @@ structure Norm where
   opts : List (Name × Nat)     -- `**opts` (a dict: compared without order - kept sorted by name)
   deriving Repr, DecidableEq, Inhabited
 
-/-- Python's binding.  There is no "unexpected keyword" (`**opts` takes it) and, with `*rest`, no "too many positional
-    arguments"; a parameter passed twice and a missing argument remain errors -/
-def openNorm (varargs : Bool) (pos kwonly : List Name) (dflts : List (Name × Nat)) (c : Call) : Option Norm :=
+/-- Python's binding of a signature WITHOUT positional-only parameters.  There is no "unexpected keyword" (`**opts` takes
+    it) and, with `*rest`, no "too many positional arguments"; a parameter passed twice and a missing argument remain errors -/
+def openNorm0 (varargs : Bool) (pos kwonly : List Name) (dflts : List (Name × Nat)) (c : Call) : Option Norm :=
   if !varargs && pos.length < c.args.length then none                                -- too many positional arguments
   else if c.kwargs.any (fun p => (pos.take c.args.length).contains p.1) then none    -- multiple values for argument
   else (bindRest c.kwargs dflts (pos.drop c.args.length ++ kwonly)).map fun vs =>
     { named := c.args.take pos.length ++ vs, rest := c.args.drop pos.length, opts := optsOf (pos ++ kwonly) c.kwargs }
+
+/-- the keywords that can bind a named parameter: all but those named like one of the first `po` (positional-only) ones -/
+def kwBinding (po : Nat) (pos : List Name) (kwargs : List (Name × Nat)) : List (Name × Nat) :=
+  kwargs.filter fun p => !(pos.take po).contains p.1
+
+/-- Python's binding (PEP 570), the first `po` parameters of `pos` positional-only: a keyword named like one of them binds
+    nothing - `**opts` collects it, next to the keywords that name no parameter; such a parameter gets its value from a
+    positional argument or from its default, else "missing argument".  With `po = 0` (and whenever `poClean`) it is `openNorm0`
+    (`openNorm_of_clean`) -/
+def openNorm (varargs : Bool) (po : Nat) (pos kwonly : List Name) (dflts : List (Name × Nat)) (c : Call) : Option Norm :=
+  let byKw := kwBinding po pos c.kwargs
+  if !varargs && pos.length < c.args.length then none                                -- too many positional arguments
+  else if byKw.any (fun p => (pos.take c.args.length).contains p.1) then none        -- multiple values for argument
+  else (bindRest byKw dflts (pos.drop c.args.length ++ kwonly)).map fun vs =>
+    { named := c.args.take pos.length ++ vs, rest := c.args.drop pos.length,
+      opts := optsOf (pos.drop po ++ kwonly) c.kwargs }
+
+/-- no keyword of the call has the name of a positional-only parameter -/
+def poClean (po : Nat) (pos : List Name) (c : Call) : Bool :=
+  c.kwargs.all fun p => !(pos.take po).contains p.1
 
 /-- the reference key: an injective image of the normalised arguments (`C13_open_refkey_injective`) -/
 def normKey (varargs : Bool) (n : Norm) : Key :=
@@ -81,24 +111,45 @@ def normKey (varargs : Bool) (n : Norm) : Key :=
 def normFlat (n : Norm) : List Nat :=
   n.named ++ [n.rest.length] ++ n.rest ++ (n.opts.map fun p => [p.1, p.2]).flatten
 
-def openRefKey (s : Sig) (pos : List Name) (c : Call) : Option Key :=
-  (openNorm s.varargs pos s.kwonly (kwargsDefaults s) c).map (normKey s.varargs)
+def openRefKey (s : Sig) (po : Nat) (pos : List Name) (c : Call) : Option Key :=
+  (openNorm s.varargs po pos s.kwonly (kwargsDefaults s) c).map (normKey s.varargs)
 
-def openBind (s : Sig) (pos : List Name) (c : Call) : Option (List Nat) :=
-  (openNorm s.varargs pos s.kwonly (kwargsDefaults s) c).map normFlat
+def openBind (s : Sig) (po : Nat) (pos : List Name) (c : Call) : Option (List Nat) :=
+  (openNorm s.varargs po pos s.kwonly (kwargsDefaults s) c).map normFlat
 
-/-- the calls the refinement theorems cover: valid (any spelling), or the key construction raises "Missing argument".
-    NOT covered (as for closed signatures, `C13_open_callOK_needed`): a parameter passed twice / too many positional
-    arguments for a function without `*rest` - no normalised arguments, get_args_tuple maps them onto a valid call's key -/
-def openCallOK (s : Sig) (pos : List Name) (c : Call) : Bool :=
-  (openNorm s.varargs pos s.kwonly (kwargsDefaults s) c).isSome || (openKey s pos c).isNone
+/-- the calls the refinement theorems cover: valid (any spelling) with no keyword named like a positional-only parameter,
+    or Python cannot bind the call and the key construction raises "Missing argument".
+    NOT covered: (1) a VALID call with a keyword named like a positional-only parameter - the property is false there, the
+    open finding `C13_open_posonly_counterexample`; (2) as for closed signatures (`C13_open_callOK_needed`) a call Python
+    cannot bind for which a key is built all the same: a parameter passed twice / too many positional arguments for a
+    function without `*rest` / a required positional-only parameter passed by keyword - no normalised arguments,
+    get_args_tuple maps them onto a valid call's key (`openOutside`) -/
+def openCallOK (s : Sig) (po : Nat) (pos : List Name) (c : Call) : Bool :=
+  match openNorm s.varargs po pos s.kwonly (kwargsDefaults s) c with
+  | some _ => poClean po pos c
+  | none => (openKey s pos c).isNone
 
-/-! alru_cache: `arg_names = argspec.args + kwonlyargs`, all arguments; acached_per_instance: without `self` -/
-def alruOpenKey (s : Sig) : Call → Option Key := openKey s s.args
-def alruOpenRefKey (s : Sig) : Call → Option Key := openRefKey s s.args
-def alruOpenBind (s : Sig) : Call → Option (List Nat) := openBind s s.args
-def perInstOpenKey (s : Sig) : Call → Option Key := openKey s (s.args.drop 1)
-def perInstOpenRefKey (s : Sig) : Call → Option Key := openRefKey s (s.args.drop 1)
-def perInstOpenBind (s : Sig) : Call → Option (List Nat) := openBind s (s.args.drop 1)
+/-- class (2) above: OUTSIDE the property (only the correspondence is judged on a case that contains such a call) -/
+def openOutside (s : Sig) (po : Nat) (pos : List Name) (c : Call) : Bool :=
+  (openNorm s.varargs po pos s.kwonly (kwargsDefaults s) c).isNone && (openKey s pos c).isSome
+
+/-- the wire token of the parameter name `self`.  A keyword of that name never reaches a cache wrapper: asynq's own
+    callables (`AsyncDecorator.__call__(self, *args, **kwargs)`, `.asynq(self, ...)`, `AsyncDecoratorBinder.asynq`) and
+    `new_fun(self, *args, **kwargs)` of acached_per_instance take it for a second value of their own first parameter -
+    TypeError ("got multiple values for argument 'self'"), nothing runs, whatever `**opts` the wrapped function has -/
+def selfName : Name := 9
+
+def kwSelf (c : Call) : Bool := c.kwargs.any fun p => p.1 == selfName
+
+/-! alru_cache: `arg_names = argspec.args + kwonlyargs`, all arguments; acached_per_instance: without `self`.
+    `po` counts the positional-only parameters among the names the wrapper receives (without `self`) -/
+def alruOpenKey (s : Sig) (c : Call) : Option Key := if kwSelf c then none else openKey s s.args c
+def alruOpenRefKey (s : Sig) (po : Nat) (c : Call) : Option Key := if kwSelf c then none else openRefKey s po s.args c
+def alruOpenBind (s : Sig) (po : Nat) (c : Call) : Option (List Nat) := if kwSelf c then none else openBind s po s.args c
+def perInstOpenKey (s : Sig) (c : Call) : Option Key := if kwSelf c then none else openKey s (s.args.drop 1) c
+def perInstOpenRefKey (s : Sig) (po : Nat) (c : Call) : Option Key :=
+  if kwSelf c then none else openRefKey s po (s.args.drop 1) c
+def perInstOpenBind (s : Sig) (po : Nat) (c : Call) : Option (List Nat) :=
+  if kwSelf c then none else openBind s po (s.args.drop 1) c
 
 end AsynqModel.Cache
